@@ -71,7 +71,9 @@ type Out struct {
 func (o *Out) feat(name string) { o.Feat[name] = true }
 
 var plainWords = []string{"work", "meeting", "lunch", "call", "with", "the", "team", "review", "fix", "bug", "deploy", "docs", "email", "break", "planning", "Q3", "v2.1", "and", "on", "for", "at", "https://klog.example/docs?a=1"}
-var unicodeWords = []string{"café", "naïve", "日本語", "读书", "Ünïcödé", "emoji😀", "Ελληνικά", "кофе", "ñandú", "é", "zero​width", "nb sp", "—dash—", "½", "ﬂuff", "bom\ufeffinside", "\ufefflead", "zw\u200bsp", "\u2060wj"}
+var unicodeWords = []string{"café", "naïve", "日本語", "读书", "Ünïcödé", "emoji😀", "Ελληνικά", "кофе", "ñandú", "é", "zero​width", "nb sp", "—dash—", "½", "ﬂuff", "bom\ufeffinside", "\ufefflead", "zw\u200bsp", "\u2060wj",
+	// letters whose lower-case form has another length in UTF-8, signs that are letters, a title-case letter
+	"İstanbul", "\u212aelvin", "Ⱥbc", "Ⱦx", "GROẞ", "\u2126hm", "\u212bngström", "ǅ"}
 var lookAlikeWords = []string{"8:00", "-", "9:00", "1h", "-5m", "?", "??", "2020-01-01", "(8h!)", "8:00-?", "<23:00", "0:30>", "100%", "%d", "%s", "%!", "50%o", "12:00am", "#", "#=", "=x", "a#b", "--flag", "\\-45m", "\\n", "24:00", "30m", "45m", "5m", "0m", "1h30m", "15:00", "http://x.io/#top", "https://example.com/a_(b)", "www.example.com", "mailto:me@example.com"}
 var jsonWords = []string{"\"quoted\"", "back\\slash", "a/b", "<tag>", "&amp;", "tab\there", " ", " ", "ctl\u0001x", "\u007f", "𝔘𝔫𝔦", "'single'", "{json}", "[1,2]", "\\u0041", "\b", "\f", "é\"\\",
 	// the spellings an encoder itself produces, as literal text (backslash, u, four hex digits; backslash + letter)
